@@ -164,7 +164,9 @@ impl Read for Source {
         if limit > 0 {
             n = n.min(limit);
         }
-        buf[..n].copy_from_slice(&self.data[self.pos..self.pos + n]);
+        // (a position beyond the end is legal for a seekable source: reads there return 0)
+        let start = self.pos.min(self.data.len());
+        buf[..n].copy_from_slice(&self.data[start..start + n]);
         self.pos += n;
         let mut log = self.log.borrow_mut();
         log.max_req = log.max_req.max(buf.len());
@@ -231,7 +233,9 @@ impl Read for ChunkedSend {
         if limit > 0 {
             n = n.min(limit);
         }
-        buf[..n].copy_from_slice(&self.data[self.pos..self.pos + n]);
+        // (a position beyond the end is legal for a seekable source: reads there return 0)
+        let start = self.pos.min(self.data.len());
+        buf[..n].copy_from_slice(&self.data[start..start + n]);
         self.pos += n;
         Ok(n)
     }
